@@ -1436,6 +1436,36 @@ class AtomsLevelOrders:
             at.charge = 0
             at.build()
             check(at, "O, spin = 2; charge = -1; charge = 0; build()", spin=2)
+            # electronic inputs assigned on the occupations object of an ALREADY BUILT Atoms object, then build() or SCF(atoms)
+            from eminus import SCF
+
+            for how in ("build()", "SCF(atoms)"):
+                def finish(at, how=how):
+                    if how == "build()":
+                        at.build()
+                        return at
+                    return SCF(at, verbose="critical").atoms
+
+                at = Atoms("Ne", [[0.0, 0.0, 0.0]], ecut=3, a=cell)
+                at.build()
+                at.occ.charge = 2
+                at = finish(at)
+                check(at, f"Ne; build(); occ.charge = 2; {how}")
+                if abs(float(np.sum(np.asarray(at.kpts.wk)[:, None, None] * np.asarray(at.occ.f))) - 6.0) > 1e-8:
+                    bad.append(dict(history=f"Ne; build(); occ.charge = 2; {how}", observed=dict(electrons_in_the_fillings=float(np.sum(np.asarray(at.occ.f))), expected=6.0)))
+                at = Atoms("O", [[0.0, 0.0, 0.0]], ecut=3, a=cell, unrestricted=True)
+                at.build()
+                at.occ.spin = 2
+                at = finish(at)
+                check(at, f"O, unrestricted; build(); occ.spin = 2; {how}", spin=2)
+                at = Atoms("Ne", [[0.0, 0.0, 0.0]], ecut=3, a=cell)
+                at.build()
+                at.occ.smearing = 0.01
+                at.occ.bands = 6
+                at = finish(at)
+                if np.asarray(at.occ.f).shape[-1] != 6:
+                    bad.append(dict(history=f"Ne; build(); occ.smearing = 0.01; occ.bands = 6; {how}", observed=dict(states_in_the_fillings=int(np.asarray(at.occ.f).shape[-1]), bands=6)))
+                check(at, f"Ne; build(); occ.smearing = 0.01; occ.bands = 6; {how}; smear()", smear=True)
         except Exception as e:  # noqa: BLE001
             bad.append(dict(raised=f"{type(e).__name__}: {e}"))
         return bad
@@ -1446,7 +1476,7 @@ class AtomsLevelOrders:
         bad = self.problems()
         if bad:
             return Result(REFUTED, backend="native", witness=bad[0], replayed=True, replay_info=dict(failing=bad[:5]), detail=f"occupations of an Atoms object: {bad[0]}")
-        return Result(BOUNDED_OK, backend="native", detail="bounded: eleven assignment orders through the Atoms interface (set_k with new weights + smearing, Z / species re-assigned on charged objects, charge / spin orders)")
+        return Result(BOUNDED_OK, backend="native", detail="bounded: eleven assignment orders through the Atoms interface (set_k with new weights + smearing, Z / species re-assigned on charged objects, charge / spin orders) and six histories with inputs assigned on atoms.occ of a built object (build / SCF construction)")
 
     def replay(self, wit):
         bad = self.problems()
